@@ -34,11 +34,29 @@ class floating(number):
 
 
 class int64(signedinteger):
-    pass
+    def __new__(cls, x=0):
+        return int(x)
 
 
 class float64(floating):
+    def __new__(cls, x=0.0):
+        return x if isinstance(x, Sym) else float(x)
+
+
+class float32(floating):
+    """narrow floats are NOT modelled (one float kind): np.float32(x) is x; checks that depend on the width are decided
+    by their real-stack replay only"""
+    def __new__(cls, x=0.0):
+        return x if isinstance(x, Sym) else float(x)
+
+
+class float16(float32):
     pass
+
+
+class int32(signedinteger):
+    def __new__(cls, x=0):
+        return int(x)
 
 
 class bool_(generic):
